@@ -367,7 +367,10 @@ class Verdict:
         self.assumptions = []
         self.notes = []
         os.makedirs(os.path.join(VERIF, "replays", prop), exist_ok=True)
-        os.makedirs(os.path.join(VERIF, "evidence"), exist_ok=True)
+        # runs against another checkout (VERIF_REPO, used for seeded changes) describe that checkout, not /repo:
+        # their evidence goes to .build/ so the committed evidence/ always describes /repo
+        self.evdir = os.path.join(VERIF, "evidence") if os.path.realpath(REPO) == "/repo" else os.path.join(BUILD, "evidence-other")
+        os.makedirs(self.evdir, exist_ok=True)
 
     def replay_path(self, name):
         return os.path.join(VERIF, "replays", self.prop, name)
@@ -376,7 +379,8 @@ class Verdict:
         p = self.replay_path(name)
         with open(p, "w") as f:
             f.write(content if content.endswith("\n") else content + "\n")
-        self.violations.append((p, note, found_input))
+        if not any(q == p for q, _, _ in self.violations):
+            self.violations.append((p, note, found_input))
 
     def known(self, text):
         if text not in self.known_hits:
@@ -387,7 +391,7 @@ class Verdict:
         ev = dict(property_id=self.prop, tier=self.tier, seed=self.seed, level=level, coverage=cov,
                   assumptions=self.assumptions, wall_s=round(time.time() - self.t0, 2),
                   violations=len(self.violations), notes=self.notes)
-        with open(os.path.join(VERIF, "evidence", self.prop + ".json"), "w") as f:
+        with open(os.path.join(self.evdir, self.prop + ".json"), "w") as f:
             json.dump(ev, f, indent=1, sort_keys=True)
             f.write("\n")
         for k in self.known_hits:
